@@ -92,6 +92,19 @@ def check_existing(ctx, doc, loc, val, tag=None):
             "resolve(default)": lambda: JSONPointer(text, unicode_escape=ue).resolve(doc, default="DEFAULT"),
             "resolve_parent": lambda: JSONPointer(text, unicode_escape=ue).resolve_parent(doc)[1],
         }
+        try:
+            # the URI-fragment spelling (RFC 6901 section 6): percent-encoded octets, decoded on request
+            import urllib.parse
+
+            enc_toks = [urllib.parse.quote(t, safe="") for t in toks]
+            enc_text = "".join("/" + urllib.parse.quote(rp.encode_token(t), safe="") for t in toks)
+            routes["from_parts(percent-encoded, uri_decode).resolve"] = lambda: JSONPointer.from_parts(enc_toks, unicode_escape=ue, uri_decode=True).resolve(doc)
+            routes["from_parts(generator of percent-encoded, uri_decode).resolve"] = lambda: JSONPointer.from_parts((t for t in enc_toks), unicode_escape=ue, uri_decode=True).resolve(doc)
+            routes["JSONPointer(percent-encoded text, uri_decode).resolve"] = lambda: JSONPointer(enc_text, unicode_escape=ue, uri_decode=True).resolve(doc)
+            routes["pointer.resolve(percent-encoded text, uri_decode)"] = lambda: jsonpath.pointer.resolve(enc_text, doc, unicode_escape=ue, uri_decode=True)
+            ctx.count("percent_encoded_routes")
+        except UnicodeEncodeError:
+            ctx.count("percent_encoded_routes_skipped_lone_surrogate")
         if text == text.strip():
             # (relative pointer text is stripped of surrounding blanks by the parser, so the
             # route is only used when the pointer text has none)
